@@ -17,7 +17,8 @@ CFG = {
     "race": True,
     "trivial_outputs": ["hang"],
     "timeout": {"quick": 600, "thorough": 3000},
-    "rule": "(TypeMux) 2500 rounds on the real event.TypeMux: 2-5 + 0-2 late receivers with type masks over int/string/float64, fast/slow/lazy/dead readers "
+    "rule": "(feed user) 60 real core.TxPool instances with an unbuffered TxPreEvent subscriber that calls pool.Stats()/Pending() per event, fed fresh txs, single and "
+            "multiple replacements per batch; only a call that never returns (20 s watchdog) is judged (feed-user-deadlock). (TypeMux) 2500 rounds on the real event.TypeMux: 2-5 + 0-2 late receivers with type masks over int/string/float64, fast/slow/lazy/dead readers "
             "(a Post parks on a dead first receiver), 1-3 posters, Unsubscribe of first/middle/last receiver at random points, Stop during 1 in 4 rounds; judged by the "
             "Spec (duplicate, lost, late, api, deadlock). (Feed) scheduled runs of the real event.Feed: per round 1-5 initial + 0-2 late subscribers (channel capacity 0/1/2/4; fast, slow, lazy and "
             "never-receiving 'dead' receivers), 1-3 concurrent senders x 1-4 values, Unsubscribe at random points (incl. while a Send is blocked "
@@ -36,6 +37,7 @@ CFG = {
             "feedSub.Unsubscribe (errOnce)": "direct Spec judgement on the real code (model: one remove per subscription)",
             "TypeMux.Subscribe/Post/Stop/del/posdelete, TypeMuxSubscription.Unsubscribe/closewait/deliver": "corr (trace validation against the Spec the Mux model is proved to "
                                                                                                    "satisfy; heap-of-arrays model, in-place compaction refuted by mux_inplace_delete_witness)",
+            "core.TxPool.add/promoteTx -> txFeed.Send under pool.mu": "direct judgement on the real pool (feed-user-deadlock) + model FeedUser (async Send never deadlocks; sync witness)",
             "data races (first use of f.etype, once.Do(init), scope map)": "race detector on the real code in every tier (obligation named by etype_write_requires_mu)",
             "yield points": "verif hook present: %s" % _HOOK},
     "assumptions": ["Go runtime semantics are modelled, not verified: channel operations, reflect.Select choosing some ready case, sync.Mutex, sync.Once; "
